@@ -222,6 +222,26 @@ Proof.
     split; [tauto|]. split; [tauto|]. intros; tauto.
 Qed.
 
+Lemma oneway_request_exact : forall t m r, msg_ok m ->
+  (out (oneway t m r) = ReqTooLarge <-> rejected (request_limit t) (framed_size m))
+  /\ (sent (oneway t m r) = None <-> rejected (request_limit t) (framed_size m))
+  /\ (~ rejected (request_limit t) (framed_size m) -> sent (oneway t m r) = Some (framed_size m)).
+Proof.
+  intros t m r Hm. pose proof (call_request_exact t m r Hm) as Hcall.
+  pose proof (framed_size_ge9 m Hm) as H9. destruct Hm as [Hh Hb].
+  assert (Hh0 : 0 <= hdr m) by lia.
+  pose proof (prepare_exact (request_limit t) m Hh0 Hb) as [Hnone Hsome].
+  unfold oneway. destruct (prepare (request_limit t) m) as [n|] eqn:Ep.
+  - destruct (Hsome n eq_refl) as [-> Hnr].
+    rewrite (transport_check_redundant t m _ Hh0 Hb Ep). cbn [negb].
+    assert (E4 : framed_size m =? 4 = false) by (apply Z.eqb_neq; lia). rewrite E4.
+    destruct t as [|rl rs]; [|exact Hcall].
+    cbn [out sent].
+    split; [split; [discriminate|tauto]|split; [split; [discriminate|tauto]|reflexivity]].
+  - cbn [out sent]. pose proof (proj1 Hnone eq_refl) as Hr.
+    split; [tauto|]. split; [tauto|]. intros; tauto.
+Qed.
+
 (** ** publishers *)
 Lemma publish_exact : forall p m, msg_ok m ->
   (fst (publish p m) = ReqTooLarge <-> rejected (publish_limit p) (framed_size m))
